@@ -613,6 +613,13 @@ def run(res, tier):
     import c05
     for kcls in ("FUnifKernel", "FRotationKernel", "TbfTestKernel"):
         c05.operator_static_locals(facts, res, kcls, "C15.7.shared-static-in-operators", min_fns=4)
+    res.rule("C15.8 the size assertions of the per-cell list builders hold on the periodic model of the lists (rules/decomp.py) for Dim 1..3 and both values of the upper-half filter argument; scan with assertions compiled in (-UNDEBUG)")
+    import decomp
+    fa = tbf.scan("asserts")
+    n8 = 0
+    for ocls in ("TbfMortonSpaceIndex", "TbfHilbertSpaceIndex"):
+        n8 += decomp.size_assertions(fa, facts, res, "C15.8.list-size-assertions", ocls)
+    res.floor("C15.8", n8, 4, "size assertions in the list builders")
     res.rule("C15.5 a member that stores the address of an element of a container member is reset by every member function that clears / refills / reallocates that container")
     np_, nc_ = member_pointers_into_containers(facts, res)
     res.instance("C15.5.member-pointer-lifetime", "classes of src/core and src/algorithms", "umbrella 'core'", "%d classes with pointer-typed members examined, %d members hold addresses of container elements" % (nc_, np_))
